@@ -28,6 +28,10 @@
 (*   sd    body(child).detach();           discarded       async.h:91      *)
 (*   sa    co_await body(child).detach();  awaited                         *)
 (*   sc    co_await body(child)            async.h:96-122                  *)
+(*   st    { future<void> f = body(child).start(); co_await f; }  the      *)
+(*         future-returning start RESUMES THE CHILD NESTED inside the      *)
+(*         caller's activation (async.h:50-59); this is what calling a     *)
+(*         coroutine function that returns future<T> does                  *)
 (*   bd k  body(child).start(prom[k]);     discarded       async.h:70      *)
 (*   ba k  co_await body(child).start(prom[k])                             *)
 (*   pk    park: custom awaiter keeps the handle (stand-in for an external *)
@@ -47,6 +51,7 @@
 (*   s  c's co_await in step i calls await_suspend (c is suspended)        *)
 (*   e  c's co_await in step i has completed (await_resume)                *)
 (*   f  c's body has finished (locals destroyed; final_suspend follows)    *)
+(*   r  the nested start() called in step i has returned to c              *)
 (* for c = 0 (native): b before the library call, e after it returned.     *)
 (***************************************************************************)
 EXTENDS Naturals, Sequences, FiniteSets, TLC
@@ -66,9 +71,11 @@ ASSUME M \in {0, 1}
 VARIABLES script,   \* script[c]: steps chosen so far, c \in 0..N (0 = native driver)
           pc,       \* pc[c]: number of completed steps
           st,       \* st[c]: "new" | "ready" (handle in the deque / in a suspend point being processed)
-                    \*        | "run" | "wait" (subscribed somewhere) | "done"
+                    \*        | "run" | "call" (on the stack, inside a nested start() it called)
+                    \*        | "wait" (subscribed somewhere) | "done"
           mid,      \* mid[c]: c is suspended inside step pc[c]+1 (an "e" event is due on resumption)
           bind,     \* bind[c]: <<"n",0>> detached | <<"f",k>> completion resolves fut[k] | <<"p",p>> co_awaited by p
+                    \*          | <<"s",p>> started by p (future in p's frame), p not (yet) awaiting
           created,  \* number of coroutines created so far
           stack,    \* call stack above native code
           inst,     \* coro_queue::instance != nullptr
@@ -202,6 +209,7 @@ Choices(c) ==
       \cup KS("aw", {k \in AllowedF : /\ Prune => fut[k].s # "done"
                                       /\ fut[k].s = "bound" => bind[c][1] = "n"})
       \cup K0("sd", created < N) \cup K0("sa", created < N) \cup K0("sc", created < N)
+      \cup K0("st", created < N)
       \cup KS("bd", {k \in AllowedF : created < N /\ fut[k].s = "pend"})
       \cup KS("ba", {k \in AllowedF : created < N /\ fut[k].s = "pend"})
       \cup K0("pk", TRUE)
@@ -212,7 +220,7 @@ Choices(c) ==
       \cup K0("qo", TRUE)
       \cup K0("qd", TRUE) \cup K0("qa", TRUE)
 
-Can(c, s) == /\ Running /\ Top.c = c
+Can(c, s) == /\ Running /\ Top.c = c /\ st[c] = "run"
              /\ s \in Choices(c)
 
 Pick(c, s) == script' = [script EXCEPT ![c] = Append(@, s)]
@@ -280,6 +288,31 @@ SpawnCoAwait(c) ==
     /\ created' = Child
     /\ nrd' = Bump(nrd, <<Child>>)
     /\ UNCHANGED <<inst, fut, parked, mtx, qu, nph, enqs, ndeq, disc>>
+
+(* future<void> f = body(child).start(): coroutine mode is on, so start() calls h.resume() directly
+   (async.h:55-57): the child runs NESTED on top of the caller's activation until control comes back
+   to this resume() call *)
+StartNested(c) ==
+    /\ Can(c, <<"st", 0>>) /\ Pick(c, <<"st", 0>>)
+    /\ Resume(Child, Append(stack, Frame("co", Child, <<>>, FALSE)),
+              [st EXCEPT ![c] = "call", ![Child] = "ready"], pc, mid, EvB(c), queue, B(inst))
+    /\ bind' = [bind EXCEPT ![Child] = <<"s", c>>]
+    /\ created' = Child
+    /\ nrd' = Bump(nrd, <<Child>>)
+    /\ UNCHANGED <<inst, fut, parked, mtx, qu, nph, enqs, ndeq, disc>>
+
+(* the nested resume() has returned: start() returns the future, then `co_await f` *)
+Started(c) == CHOOSE x \in Cor : bind[x] = <<"s", c>>
+StartReturn(c) ==
+    /\ Running /\ Top.c = c /\ st[c] = "call"
+    /\ LET E0 == Append(ev, <<c, pc[c] + 1, "r", queue, B(inst)>>)
+           x == Started(c)
+       IN IF st[x] = "done"
+            THEN /\ Cont(c, TRUE, [st EXCEPT ![c] = "run"], E0, queue)
+                 /\ bind' = [bind EXCEPT ![x] = <<"n", 0>>]
+            ELSE /\ Back([st EXCEPT ![c] = "wait"], pc, [mid EXCEPT ![c] = TRUE], EvS(E0, c), queue)
+                 /\ bind' = [bind EXCEPT ![x] = <<"p", c>>]
+    /\ UNCHANGED <<script, created, inst, fut, parked, mtx, qu, nph, enqs, ndeq, nrd, disc>>
 
 (* async::start(promise&): the child claims promise k; suspend_point<bool>{h, true} (async.h:70-74) *)
 SpawnBoundDiscard(c, k) ==
@@ -495,6 +528,7 @@ Next ==
     \/ \E c \in Cor :
          \/ Pause(c) \/ Park(c) \/ Unpark(c) \/ Return(c)
          \/ SpawnDetachDiscard(c) \/ SpawnDetachAwait(c) \/ SpawnCoAwait(c)
+         \/ StartNested(c) \/ StartReturn(c)
          \/ QPop(c) \/ QPushDiscard(c) \/ QPushAwait(c)
          \/ \E k \in 1..K : \/ ResolveDiscard(c, k) \/ ResolveAwait(c, k) \/ AwaitFuture(c, k)
                             \/ SpawnBoundDiscard(c, k) \/ SpawnBoundAwait(c, k)
@@ -509,12 +543,12 @@ EvIdx == 1..Len(ev)
 CoFrames == {i \in 1..Len(stack) : stack[i].t = "co"}
 
 TypeOK ==
-    /\ \A c \in Cor : /\ st[c] \in {"new", "ready", "run", "wait", "done", "REENTER"}
-                      /\ Len(script[c]) = pc[c] + B(mid[c])
+    /\ \A c \in Cor : /\ st[c] \in {"new", "ready", "run", "call", "wait", "done", "REENTER"}
+                      /\ Len(script[c]) = pc[c] + B(mid[c] \/ st[c] = "call")
                       /\ (c > created) <=> st[c] = "new"
                       /\ mid[c] => st[c] \in {"ready", "wait"}
-    /\ Len(stack) <= 2
     /\ \A i \in 1..Len(stack) : stack[i].t = (IF i = 1 THEN "iq" ELSE "co")
+    /\ "st" \notin Kinds => Len(stack) <= 2
 
 (* a running coroutine is always in coroutine mode *)
 CoroMode == stack # <<>> => inst
@@ -528,6 +562,19 @@ RunToSuspension ==
           at == disc[r][3]
       IN \A j \in EvIdx : (j > at /\ ev[j][1] = d) =>
             \E n \in EvIdx : n > at /\ n < j /\ ev[n][1] = w /\ ev[n][3] \in {"s", "f"}
+
+(* Reading for programs with NESTED activations ("st"): while a child started by start() runs nested
+   inside its caller, "the running coroutine" is the innermost one (README "Rizeni korutin v coro
+   mode": suspension or termination of the CURRENTLY running coroutine resumes the next one from the
+   queue): a queued coroutine executes only after SOME running coroutine has suspended or finished
+   since the readying.  Without nested activations this is the same statement as RunToSuspension,
+   because nobody but the waker runs before the waker suspends or finishes. *)
+RunToSuspensionInner ==
+    \A r \in 1..Len(disc) :
+      LET d == disc[r][2]
+          at == disc[r][3]
+      IN \A j \in EvIdx : (j > at /\ ev[j][1] = d) =>
+            \E n \in EvIdx : n > at /\ n < j /\ ev[n][3] \in {"s", "f"}
 
 (* the deque is exactly the not yet dequeued suffix of everything ever enqueued: pop_front order =
    push_back order *)
@@ -564,7 +611,9 @@ ResumeOncePerReadying ==
 NoReentrancy ==
     /\ \A c \in Cor : st[c] # "REENTER"
     /\ \A i, j \in CoFrames : i # j => stack[i].c # stack[j].c
-    /\ \A c \in Cor : (st[c] = "run") <=> (\E i \in CoFrames : stack[i].c = c)
+    /\ \A c \in Cor : (st[c] \in {"run", "call"}) <=> (\E i \in CoFrames : stack[i].c = c)
+    \* only the innermost activation executes; the ones below it are inside a nested start()
+    /\ \A i \in CoFrames : i < Len(stack) => st[stack[i].c] = "call"
 
 (* co_await pause(): everybody who was queued runs before the pausing coroutine continues *)
 RoundRobin ==
@@ -578,7 +627,7 @@ RoundRobin ==
 (* when the outermost activation returns to native code nothing is left queued and coroutine mode
    is off; native code observes the same *)
 FullDrain ==
-    /\ stack = <<>> => (queue = <<>> /\ ~inst)
+    /\ stack = <<>> => (queue = <<>> /\ ~inst /\ \A c \in Cor : st[c] # "ready")
     /\ \A n \in EvIdx : ev[n][1] = 0 => (ev[n][4] = <<>> /\ ev[n][5] = 0)
 
 (* no ready coroutine left behind; (and, thanks to the clean-up phase and the choice guards, every
